@@ -1,7 +1,8 @@
-"""Shared rule: fields that change together.  On the pinned tree some record fields are written in the same basic block at
-every single site (mined once over all units, then frozen here with the property that owns each pair).  A site that updates
+"""Shared rule: fields that change together.  On the pinned tree some record fields are written in the same basic block (or in
+two control-equivalent blocks) at every single site (mined once over all units, then frozen here with the property that owns each pair).  A site that updates
 one without the other - an update dropped on one branch, a statement moved away - breaks the invariant the pair encodes."""
 from ..facts import S, strip, nodes
+from .. import cfg as C
 
 
 def written_fields(blk, ops=None):
@@ -26,12 +27,22 @@ def run(db, res, rule, pairs, text):
         for name, f in sorted(db.fn.items()):
             if not f.blocks or f.loc.startswith('htp/lzma'):
                 continue
+            dom = pdom = None
             for b, blk in f.blocks.items():
                 w = written_fields(blk)
                 wa = written_fields(blk, ops) if ops else w
                 if (rec, A) not in wa:
                     continue
                 n += 1
-                res.check((rec, B) in w, rule, '%s:%s.%s=>%s' % (name, rec, A, B), 'updated together (%s)' % why,
+                together = (rec, B) in w
+                if not together:
+                    # not in the same basic block: still one step when the two blocks are control equivalent (each runs exactly
+                    # when the other does - a conditional expression between the two stores splits the block, nothing more)
+                    dom = dom or C.dominators(f)
+                    pdom = pdom or C.postdominators(f)
+                    for b2, blk2 in f.blocks.items():
+                        if b2 != b and (rec, B) in written_fields(blk2) and ((b in dom[b2] and b2 in pdom[b]) or (b2 in dom[b] and b in pdom[b2])):
+                            together = True
+                res.check(together, rule, '%s:%s.%s=>%s' % (name, rec, A, B), 'updated together (%s)' % why,
                           '%s updates %s.%s without %s in the same step (%s): everywhere else the two change together' % (name, rec, A, B, why), wa[(rec, A)]['loc'])
         res.floor(rule, 'sites that update %s.%s' % (rec, A), n, floor)
